@@ -399,6 +399,17 @@ def runtime_checks():
             for cn, a, b in (('x', xb, x), ('y', yb, y), ('z', zb, z)):
                 if not torch.allclose(a, b, rtol=0, atol=1e-12):
                     bad.append(dict(case='axis points', quantity=f'{nm} round trip, {cn}', got=a.reshape(-1).tolist(), want=b.reshape(-1).tolist()))
+        # "follow the documented ranges": where an angle is not defined (origin, polar axis) the documented default is 0, and radii are exact
+        x, y, z = torch.tensor([[0.0], [0.0], [0.0]]), torch.tensor([[0.0], [0.0], [0.0]]), torch.tensor([[0.0], [2.5], [-1.5]])
+        for dt in (torch.float64, torch.float32):
+            rs, ths, phs = ops.cartesian_to_spherical(x.to(dt), y.to(dt), z.to(dt))
+            rh, phc, zc = ops.cartesian_to_cylindrical(x.to(dt), y.to(dt), z.to(dt))
+            for nm, got, want in (('cartesian_to_spherical r', rs, [0.0, 2.5, 1.5]), ('cartesian_to_spherical theta', ths, [0.0, 0.0, math.pi]),
+                                  ('cartesian_to_spherical phi', phs, [0.0, 0.0, 0.0]), ('cartesian_to_cylindrical rho', rh, [0.0, 0.0, 0.0]),
+                                  ('cartesian_to_cylindrical phi', phc, [0.0, 0.0, 0.0])):
+                g = got.detach().double().reshape(-1).tolist()
+                if any(abs(a - b) > (1e-6 if (dt == torch.float32 and b != 0.0) else 0.0) for a, b in zip(g, want)):
+                    bad.append(dict(case='origin and points on the polar axis (angles not defined: documented default 0)', quantity=nm, dtype=str(dt), got=g, want=want))
         # tensors that were first seen by the library in another autograd state (under no_grad, or before requires_grad_ was set)
         r = torch.tensor([[1.1], [2.0], [0.6]]); th = torch.tensor([[0.7], [1.2], [2.0]]); ph = torch.tensor([[0.4], [1.0], [5.0]])
         with torch.no_grad():
